@@ -18,6 +18,7 @@ import (
 // Expect; refactorings must be silent.
 
 type Variant struct {
+	Patch  string   `json:"patch,omitempty"` // unified diff applied with patch(1) to copies of the files (seeded changes)
 	ID     string   `json:"id"`
 	Props  []string `json:"props"`
 	Kind   string   `json:"kind"` // breaking | refactor
@@ -57,10 +58,87 @@ func loadVariants(verif string) ([]Variant, error) {
 		}
 		out = append(out, vs...)
 	}
+	// the confirmed seeded changes written by independent sub-agents
+	metas, _ := filepath.Glob(filepath.Join(verif, "seeded", "*", "meta.json"))
+	sort.Strings(metas)
+	for _, m := range metas {
+		data, err := os.ReadFile(m)
+		if err != nil {
+			continue
+		}
+		var meta struct {
+			ID         string              `json:"id"`
+			Breaks     string              `json:"breaks_property"`
+			DetectedBy map[string][]string `json:"detected_by"`
+		}
+		if json.Unmarshal(data, &meta) != nil {
+			continue
+		}
+		props := map[string]bool{meta.Breaks: true}
+		for p := range meta.DetectedBy {
+			props[p] = true
+		}
+		var pl []string
+		for p := range props {
+			pl = append(pl, p)
+		}
+		sort.Strings(pl)
+		out = append(out, Variant{ID: "seeded:" + meta.ID, Props: pl, Kind: "breaking", Patch: filepath.Join(filepath.Dir(m), "patch.diff")})
+	}
 	return out, nil
 }
 
+// patchOverlay applies a unified diff to scratch copies of the files it names.
+func patchOverlay(repo, patch string) (map[string]string, bool) {
+	data, err := os.ReadFile(patch)
+	if err != nil {
+		return nil, false
+	}
+	var files []string
+	for _, line := range strings.Split(string(data), "\n") {
+		if strings.HasPrefix(line, "+++ b/") {
+			files = append(files, strings.TrimSpace(strings.TrimPrefix(line, "+++ b/")))
+		}
+	}
+	if len(files) == 0 {
+		return nil, false
+	}
+	tmp, err := os.MkdirTemp("", "sthlint-patch-*")
+	if err != nil {
+		return nil, false
+	}
+	defer os.RemoveAll(tmp)
+	for _, f := range files {
+		src, err := os.ReadFile(filepath.Join(repo, f))
+		if err != nil {
+			return nil, false
+		}
+		dst := filepath.Join(tmp, f)
+		os.MkdirAll(filepath.Dir(dst), 0o755)
+		if os.WriteFile(dst, src, 0o644) != nil {
+			return nil, false
+		}
+	}
+	cmd := exec.Command("patch", "-p1", "-s", "--no-backup-if-mismatch", "-d", tmp, "-i", patch)
+	if out, err := cmd.CombinedOutput(); err != nil {
+		_ = out
+		return nil, false
+	}
+	ov := map[string]string{}
+	for _, f := range files {
+		b, err := os.ReadFile(filepath.Join(tmp, f))
+		if err != nil {
+			return nil, false
+		}
+		ov[filepath.Join(repo, f)] = string(b)
+	}
+	return ov, true
+}
+
 func buildOverlay(repo string, v Variant) (map[string]string, bool) {
+	if v.Patch != "" {
+		return patchOverlay(repo, v.Patch)
+	}
 	edits := append([]Edit{{v.File, v.Old, v.New}}, v.Edits...)
 	content := map[string]string{}
 	for _, e := range edits {
